@@ -73,6 +73,11 @@ def step (st : DrvState) (line : String) : DrvState × String :=
       | some v => (st, s!"ok p3={Gen.of_popcount_3 v} h32={Gen.of_hweight32 (v % 4294967296)} naive={Gen.of_hweight32_naive (v % 4294967296)}")
       | none => (st, "bad-op")
   | ["tabcheck"] => (st, "ok " ++ String.intercalate ";" TabCheck.all)
+  | ["colcheck", k, n, rows] => match nat? k, nat? n with
+      | some k, some n =>
+        let Hl := ((rows.splitOn ";").filter (· != "")).map fun r => (r.splitOn ",").filterMap String.toNat?
+        (st, s!"ok stair={if Api.stairCheck k Hl then 1 else 0} lastnull={if Api.lastNullCheckX n Hl then 1 else 0}")
+      | _, _ => (st, "bad-op")
   | ["wfcheck", n, rows] => match nat? n with
       | some n =>
         -- rows: "0,1,2;3,4;" ; the well-formedness hypothesis of the C04 theorems, evaluated
